@@ -137,7 +137,9 @@ def run_rec_property(res, fn, props_module, theorems, spec_fns=None, extra_fns=(
     if unlisted:
         unlisted.sort(key=lambda x: len(x[0][1]))
         r, a = unlisted[0]
-        res.violation("input", {"kind": "rec-input", "fn": r[0], "hex": r[1], "impl": r[2], "spec": a,
+        # (a verdict "x/y(same bytes in a reused buffer …)" depends on the input evaluated just before: the replay re-runs the
+        #  whole stream instead of the single input)
+        res.violation("input", {"kind": "rec-input-seq" if "/" in r[2] else "rec-input", "fn": r[0], "hex": r[1], "impl": r[2], "spec": a,
                                 "more": [x[0][1] for x in unlisted[1:6]], "count": len(unlisted),
                                 "broken": [b[0] for b in broken]}, True)
         return
